@@ -42,6 +42,25 @@ TRUSTED = ["CPython dict insertion order (entries are also compared as a multise
 
 NAMES = ["p%d" % i for i in range(10)] + ["a", "b", "zz", "Ab", "q17", "x_y", "proj", "P", "k9", "0"]
 SCORES = [0, 1, 2, 3, 5, F(1, 2), F(7, 3)]
+# float scores are legal scores too ("f:<repr>" in the protocol).  Their content is their EXACT binary value: 0.1 is not 1/10,
+# 0.5 is 1/2 (and hashes like it), 2.0 is 2.  Drawn by a generator of their own, so the exact-score histories keep their seeds.
+FLOAT_SCORES = [0.1, 0.3, 0.1 + 0.2, 1 / 3, 0.5, 2.0, 1e-3, 2.5, 0.7]
+
+
+def _tok(s):
+    return "f:" + repr(s) if isinstance(s, float) else core.q2s(s)
+
+
+def score_exact(tok):
+    """the exact rational value of a protocol score"""
+    tok = str(tok)
+    return F(float(tok[2:])) if tok.startswith("f:") else F(tok)
+
+
+def score_value(tok):
+    """the object handed to the library: a Python float, or the exact number type of the library"""
+    tok = str(tok)
+    return float(tok[2:]) if tok.startswith("f:") else core.to_num(F(tok))
 # second pool ("close" names): names that differ only in letter case, are prefixes of each other, look like numbers, differ only in
 # blanks / punctuation, or are not ASCII.  Project identity is the exact name (Project.__eq__/__hash__), so all of these are DISTINCT
 # projects; whatever canonical order the frozen classes use must be a total order on them (an order that identifies or cannot compare
@@ -95,10 +114,10 @@ def gen_voter_steps(rng, btype, proto, names):
         items = _shuffled(rng, list(proto.items()))
         for n, s in items:
             if rng.random() < 0.25:
-                steps.append(["set", n, core.q2s(rng.choice(SCORES))])  # overwritten below
+                steps.append(["set", n, _tok(rng.choice(SCORES))])  # overwritten below
         steps = _shuffled(rng, steps)
         for n, s in items:
-            steps.append(["set", n, core.q2s(s)])
+            steps.append(["set", n, _tok(s)])
         others = [n for n in names if n not in proto]
         if others and rng.random() < 0.3:
             n = rng.choice(others)
@@ -170,6 +189,21 @@ def gen_history(rng: random.Random, pool="plain", feeds=False):
         key = r.choice(list(d))
         d[key] = d[key] + 1
         protos[1] = d
+    if btype in ("card", "cum"):
+        fr = random.Random(sub ^ 0xF10A7)
+        if fr.random() < 0.3:
+            # some scores are floats; sometimes one voter casts the float and another the fraction a reader would take it for
+            # (0.1 vs 1/10: different ballots), or the fraction it IS (0.5 vs 1/2, the exact value of 0.1: equal ballots)
+            for d in list(protos):
+                for key in list(d):
+                    if fr.random() < 0.4:
+                        d[key] = fr.choice(FLOAT_SCORES)
+            src = [d for d in protos if any(isinstance(v, float) for v in d.values())]
+            if src and fr.random() < 0.7:
+                d0 = fr.choice(src)
+                how = fr.choice(["looks-like", "exact"])
+                protos.append({k2: ((F(repr(v)) if how == "looks-like" else F(v)) if isinstance(v, float) else v) for k2, v in d0.items()})
+                k = len(protos)
     if btype == "ord" and len(protos) >= 2 and len(protos[0]) >= 2 and r.random() < 0.4:
         # same set, different ranking: must stay a different entry
         protos[1] = list(reversed(protos[0]))
@@ -297,7 +331,7 @@ def content_of_steps(btype, steps):
         d = {}
         for st in steps:
             if st[0] == "set":
-                d[st[1]] = F(st[2])
+                d[st[1]] = score_exact(st[2])
             else:
                 d.pop(st[1], None)
         return sorted([n, core.q2s(v)] for n, v in d.items())
@@ -337,7 +371,7 @@ def enc_raw(btype, raw, rank):
     if not raw:
         return "_"
     if btype in ("card", "cum"):
-        return ".".join(f"{rank[n]}~{s}" for n, s in raw)
+        return ".".join(f"{rank[n]}~{core.q2s(score_exact(s))}" for n, s in raw)  # a float score enters the model as its exact value
     return ".".join(str(rank[n]) for n in raw)
 
 
@@ -421,7 +455,7 @@ def worker_run(h):
             if st[0] == "freeze":
                 b.frozen()
             elif st[0] == "updset":
-                b.update({projs[st[1]]: core.to_num(F(st[2]))})
+                b.update({projs[st[1]]: score_value(st[2])})
             elif st[0] == "pop":
                 b.pop(projs[st[1]])
             elif st[0] == "add":
@@ -431,7 +465,7 @@ def worker_run(h):
             elif st[0] == "update":
                 b.update([projs[n] for n in st[1]])
             elif st[0] == "set":
-                b[projs[st[1]]] = core.to_num(F(st[2]))
+                b[projs[st[1]]] = score_value(st[2])
             elif st[0] == "del":
                 del b[projs[st[1]]]
             else:
